@@ -29,18 +29,22 @@ func HostileConstants() [][]byte {
 		hdr(0, 0, 0, 0),
 		hdr(0xFFFF, 0xFFFF, 0xFFFF, 0xFFFF),
 		hdr(1, 0, 0, 0),
-		cat(hdr(1, 0, 0, 0), []byte{0xC0, 0x0C}, qtail),                        // pointer to self
-		cat(hdr(1, 0, 0, 0), []byte{0xC0, 0x0E, 0xC0, 0x0C}, qtail),            // two-cycle
-		cat(hdr(1, 0, 0, 0), []byte{0xC0, 0xFF}, qtail),                        // pointer past the end
-		cat(hdr(1, 0, 0, 0), []byte{0xC0, 0x12}, qtail, []byte{1, 'a', 0}),     // forward pointer
-		cat(hdr(1, 0, 0, 0), []byte{0x40, 'a', 0}, qtail),                      // reserved 0x40
-		cat(hdr(1, 0, 0, 0), []byte{0x80, 'a', 0}, qtail),                      // reserved 0x80
-		cat(hdr(1, 0, 0, 0), []byte{63}, bytes.Repeat([]byte{'a'}, 10)),        // label longer than data
-		cat(hdr(1, 0, 0, 0), []byte{1, 'a'}),                                   // no terminator
-		cat(hdr(0, 1, 0, 0), []byte{0, 0, 1, 0, 1, 0, 0, 0, 0, 0xFF, 0xFF}),    // rdlength lies
-		cat(hdr(0, 1, 0, 0), []byte{0, 0, 1, 0, 1, 0, 0, 0, 0, 0, 3, 1, 2, 3}), // A with 3 octets
-		cat(hdr(0, 1, 0, 0), []byte{0, 0, 2, 0, 1, 0, 0, 0, 0, 0, 1, 0, 0}),    // NS rdlength 1 + trailing
-		cat(hdr(0, 1, 0, 0), []byte{0, 0, 6, 0, 1, 0, 0, 0, 0, 0, 2, 0, 0}),    // SOA too short
+		cat(hdr(1, 0, 0, 0), []byte{0xC0, 0x0C}, qtail),                                                                                                                                // pointer to self
+		cat(hdr(1, 0, 0, 0), []byte{0xC0, 0x0E, 0xC0, 0x0C}, qtail),                                                                                                                    // two-cycle
+		cat([]byte{0xC0, 0x00, 0x01, 0x00, 0, 1, 0, 0, 0, 0, 0, 0}, []byte{0xC0, 0x00}, qtail),                                                                                         // question name -> the ID, which is a pointer to itself
+		cat([]byte{0x12, 0x34, 0x01, 0x00, 0, 1, 0, 0, 0, 0, 0xC0, 0x0A}, []byte{0xC0, 0x0A}, qtail),                                                                                   // question name -> ARCOUNT, a self pointer
+		cat([]byte{0xC0, 0x02, 0xC0, 0x00, 0, 1, 0, 0, 0, 0, 0, 0}, []byte{0xC0, 0x00}, qtail),                                                                                         // two-cycle inside the header
+		cat(hdr(1, 1, 0, 0), []byte{1, 'a', 0}, qtail, []byte{0xC0, 0x0C, 0, 16, 0, 1, 0, 0, 0, 9, 0, 3, 2, 0xC0, 0x1D}, []byte{0xC0, 0x1D, 0, 1, 0, 1, 0, 0, 0, 9, 0, 4, 1, 2, 3, 4}), // a later owner -> a self pointer inside TXT rdata
+		cat(hdr(1, 0, 0, 0), []byte{0xC0, 0xFF}, qtail),                                                                                                                                // pointer past the end
+		cat(hdr(1, 0, 0, 0), []byte{0xC0, 0x12}, qtail, []byte{1, 'a', 0}),                                                                                                             // forward pointer
+		cat(hdr(1, 0, 0, 0), []byte{0x40, 'a', 0}, qtail),                                                                                                                              // reserved 0x40
+		cat(hdr(1, 0, 0, 0), []byte{0x80, 'a', 0}, qtail),                                                                                                                              // reserved 0x80
+		cat(hdr(1, 0, 0, 0), []byte{63}, bytes.Repeat([]byte{'a'}, 10)),                                                                                                                // label longer than data
+		cat(hdr(1, 0, 0, 0), []byte{1, 'a'}),                                                                                                                                           // no terminator
+		cat(hdr(0, 1, 0, 0), []byte{0, 0, 1, 0, 1, 0, 0, 0, 0, 0xFF, 0xFF}),                                                                                                            // rdlength lies
+		cat(hdr(0, 1, 0, 0), []byte{0, 0, 1, 0, 1, 0, 0, 0, 0, 0, 3, 1, 2, 3}),                                                                                                         // A with 3 octets
+		cat(hdr(0, 1, 0, 0), []byte{0, 0, 2, 0, 1, 0, 0, 0, 0, 0, 1, 0, 0}),                                                                                                            // NS rdlength 1 + trailing
+		cat(hdr(0, 1, 0, 0), []byte{0, 0, 6, 0, 1, 0, 0, 0, 0, 0, 2, 0, 0}),                                                                                                            // SOA too short
 	)
 	// pointer chains of 9..12 hops ending in a real name
 	for hops := 9; hops <= 12; hops++ {
@@ -92,7 +96,7 @@ func HostileConstants() [][]byte {
 
 // GenHostile draws a hostile byte string and a class label.
 func GenHostile(t *rapid.T) ([]byte, string) {
-	kind := rapid.IntRange(0, 13).Draw(t, "hostileKind")
+	kind := rapid.IntRange(0, 14).Draw(t, "hostileKind")
 	if kind == 0 {
 		return rapid.SliceOfN(rapid.Byte(), 0, 600).Draw(t, "random"), "random"
 	}
@@ -193,6 +197,28 @@ func GenHostile(t *rapid.T) ([]byte, string) {
 			w[o+1] = byte(start)
 		}
 		return w, "name-growth-loop"
+	case 14: // a pointer cycle that lies BEFORE the name that leads into it: in the header, or in earlier opaque octets
+		o := pickOff(d.NameOffsets, "nameOff")
+		if o+1 >= len(w) || o < 2 {
+			return w, "valid"
+		}
+		p1 := rapid.SampledFrom([]int{0, 2, 4, 6, 8, 10, 12, o - 2, o / 2}).Draw(t, "cycleAt")
+		if p1 > o-2 {
+			p1 = o - 2
+		}
+		p1 &^= 0 // any alignment
+		if rapid.Bool().Draw(t, "twoCycle") && o >= 4 {
+			p2 := rapid.IntRange(0, o-2).Draw(t, "cycleAt2")
+			if p2 == p1 || p2 == p1+1 || p2+1 == p1 {
+				p2 = p1 // degenerate: self pointer
+			}
+			w[p1], w[p1+1] = 0xC0|byte(p2>>8), byte(p2)
+			w[p2], w[p2+1] = 0xC0|byte(p1>>8), byte(p1)
+		} else {
+			w[p1], w[p1+1] = 0xC0|byte(p1>>8), byte(p1)
+		}
+		w[o], w[o+1] = 0xC0|byte(p1>>8), byte(p1)
+		return w, "pointer-cycle-behind"
 	default: // zero out a region
 		a := rapid.IntRange(0, len(w)-1).Draw(t, "zeroFrom")
 		b := rapid.IntRange(a, len(w)).Draw(t, "zeroTo")
